@@ -27,7 +27,7 @@ CONSTANTS = "tpmstream.spec.structures.constants"
 UNMARSHAL = "tpmstream.io.binary.unmarshal"
 
 
-def reader_triple(run, roles):
+def reader_triple(run, roles, emit=True):
     """(count source, byteorder constant, signed source) of the primitive walker + obligations."""
     fn = roles.walkers.get("process_primitive")
     if fn is None:
@@ -36,6 +36,10 @@ def reader_triple(run, roles):
     mod = roles.mod
     t = fn.args.args[0].arg
     conv = [c for c in walk_no_nested(fn) if isinstance(c, ast.Call) and norm(c.func) == "int.from_bytes"]
+    if not conv:
+        R = manual_reader(run if emit else None, roles, fn, V, t)
+        if R is not None:
+            return R
     if len(conv) != 1:
         raise AnalysisError(f"{len(conv)} int.from_bytes calls in the primitive walker")
     c = conv[0]
@@ -61,7 +65,120 @@ def reader_triple(run, roles):
         appended = [a for a in ast.walk(lp) if isinstance(a, ast.Call) and isinstance(a.func, ast.Attribute)
                     and a.func.attr == "append" and data is not None and norm(a.func.value) == norm(data)]
         okloop = isinstance(asg, ast.Assign) and len(appended) == 1 and norm(appended[0].args[0]) == norm(asg.targets[0])
-    return dict(V=V, call=c, byteorder=bo_r, signed=sg_r, count=count_src, loop_ok=okloop, tparam=t, mod=mod, fn=fn)
+    return dict(V=V, call=c, byteorder=bo_r, signed=sg_r, count=count_src, loop_ok=okloop, tparam=t, mod=mod, fn=fn,
+                is_decoded=lambda e, at: V.resolve(e, at) is c)
+
+
+def manual_reader(run, roles, fn, V, t):
+    """The second recognised reader idiom: in-place big-endian accumulation
+        acc = 0; for _ in range(N): b = yield None; acc = (acc << 8) | b        (or acc * 256 + b)
+        if <T>._signed: if acc >= 1 << (8 * N - 1): acc -= 1 << (8 * N)          (two's complement)
+    It is translated into the same (count, byte order, signedness) triple; the threshold of the sign correction is
+    checked exactly (a value is negative iff its top bit is set).  Anything else is not recognised (None)."""
+    mod = roles.mod
+    for lp in [n for n in walk_no_nested(fn) if isinstance(n, ast.For)]:
+        it = lp.iter
+        if not (isinstance(it, ast.Call) and call_name(it) == "range" and len(it.args) == 1 and len(lp.body) == 2):
+            continue
+        rd, upd = lp.body
+        if not (isinstance(rd, ast.Assign) and isinstance(rd.value, ast.Yield) and isinstance(rd.targets[0], ast.Name)
+                and (rd.value.value is None or (isinstance(rd.value.value, ast.Constant) and rd.value.value.value is None))):
+            continue
+        b = rd.targets[0].id
+        if not (isinstance(upd, ast.Assign) and isinstance(upd.targets[0], ast.Name)):
+            continue
+        acc = upd.targets[0].id
+        big = any(match(upd.value, pat) is not None for pat in (f"{acc} << 8 | {b}", f"({acc} << 8) + {b}", f"{acc} * 256 + {b}",
+                                                              f"{b} | {acc} << 8", f"{b} + {acc} * 256", f"{acc} * 256 | {b}"))
+        little = False
+        if not big:
+            continue
+        init = [a for a in walk_no_nested(fn) if isinstance(a, ast.Assign) and norm(a.targets[0]) == acc and a is not upd
+                and a.lineno < lp.lineno]
+        if not (len(init) == 1 and isinstance(init[0].value, ast.Constant) and init[0].value.value == 0):
+            continue
+        n_expr = V.resolve(it.args[0], lp)
+        n_txt = {norm(it.args[0]), norm(n_expr)}
+        # sign correction
+        signed_src, thr_ok, found = None, None, False
+        for st in [x for x in walk_no_nested(fn) if isinstance(x, ast.If) and x.lineno > lp.lineno]:
+            if "_signed" not in norm(st.test):
+                continue
+            inner = [x for x in st.body if isinstance(x, ast.If)]
+            tests = []
+            if inner:
+                signed_src = st.test
+                tests = [(inner[0].test, inner[0].body)]
+            elif isinstance(st.test, ast.BoolOp) and isinstance(st.test.op, ast.And) and len(st.test.values) == 2:
+                signed_src = st.test.values[0]
+                tests = [(st.test.values[1], st.body)]
+            for test, body in tests:
+                found = True
+                sub = [x for x in body if isinstance(x, ast.AugAssign) and isinstance(x.op, ast.Sub) and norm(x.target) == acc]
+                full = {f"1 << 8 * {n}" for n in n_txt} | {f"2 ** (8 * {n})" for n in n_txt} | {f"256 ** {n}" for n in n_txt}
+                half = {f"1 << 8 * {n} - 1" for n in n_txt} | {f"2 ** (8 * {n} - 1)" for n in n_txt}
+                sub_ok = len(sub) == 1 and norm(V.resolve(sub[0].value, sub[0])) in full
+
+                def R_(e):
+                    return norm(V.resolve(e, st)) if isinstance(e, ast.Name) else norm(e)
+                tt = None
+                if isinstance(test, ast.Compare) and len(test.ops) == 1 and norm(test.left) == acc:
+                    rhs = R_(test.comparators[0])
+                    if isinstance(test.ops[0], ast.GtE) and rhs in half:
+                        tt = True
+                    elif isinstance(test.ops[0], ast.Gt) and rhs in {f"({h}) - 1" for h in half} | {f"{h} - 1" for h in half}:
+                        tt = True
+                    elif isinstance(test.ops[0], (ast.Gt, ast.GtE)) and any(h in rhs for h in half):
+                        tt = False
+                elif isinstance(test, ast.BinOp) and isinstance(test.op, ast.BitAnd) and norm(test.left) == acc and R_(test.right) in half:
+                    tt = True
+                if tt is None:
+                    return None
+                thr_ok = tt and sub_ok
+                if run is not None:
+                    run.ob("B1", thr_ok, "reader: two's-complement correction exactly when the top bit is set",
+                           f"the sign correction `{norm(test)}` / `{norm(sub[0]) if sub else None}` is off: the minimum value "
+                           f"-2^(8n-1) (bit pattern 0x80..00) decodes as +2^(8n-1), or the wrong modulus is subtracted", module=mod,
+                           node=test, func=fn.name, construct="int.from_bytes signed")
+        if not found:
+            signed_src = None
+        call = ast.Call(func=ast.Attribute(value=ast.Name(id="int", ctx=ast.Load()), attr="from_bytes", ctx=ast.Load()),
+                        args=[ast.Name(id=acc, ctx=ast.Load())], keywords=[])
+        ast.copy_location(call, upd)
+        ast.fix_missing_locations(call)
+        call._parent = upd
+        sg = signed_src if (signed_src is not None and thr_ok is not False) else (signed_src if signed_src is not None else None)
+        return dict(V=V, call=call, byteorder=ast.Constant(value="big"), signed=sg, count=n_expr, loop_ok=True, tparam=t, mod=mod, fn=fn,
+                    is_decoded=lambda e, at: isinstance(e, ast.Name) and e.id == acc or (isinstance(V.resolve(e, at), ast.Name)
+                                                                                         and V.resolve(e, at).id == acc),
+                    manual=True)
+    return None
+
+
+def primitive_event_once(run, roles, rule):
+    """every completed decode of a primitive emits that field's own event exactly once, before any warning about it -
+    in both modes (path summaries of the primitive walker)"""
+    fn = roles.walkers.get("process_primitive")
+    if fn is None:
+        raise AnalysisError("primitive walker not found")
+    mod = roles.mod
+    t, pth = fn.args.args[0].arg, fn.args.args[1].arg
+    ps = [p for p in paths.summarise(mod, fn) if p.end == "return"]
+    if not ps:
+        raise AnalysisError("primitive walker: no returning path")
+    for p in ps:
+        ys = [(i, e) for i, (k, e, _n) in enumerate(p.effects) if k == "yield" and e is not None and isinstance(e, ast.Call)]
+        evs = [(i, e) for i, e in ys if call_name(e) == "MarshalEvent"]
+        warns = [(i, e) for i, e in ys if call_name(e) == "WarningEvent"]
+        lab = " & ".join(("" if v else "not ") + a for a, v, _ in p.cond if "size_constraints" not in a) or "always"
+        own = [(i, e) for i, e in evs if len(e.args) == 3 and norm(e.args[0]) == pth and norm(e.args[1]) == t]
+        ok = len(own) == 1 and len(evs) == 1 and all(i > own[0][0] for i, _ in warns)
+        run.ob(rule, ok, f"primitive walker [{lab}]: the field's own event is emitted exactly once, before any warning",
+               f"on the path [{lab}] a completed primitive emits {len(own)} events of its own and {len(warns)} warning(s)"
+               f"{' before its event' if own and any(i < own[0][0] for i, _ in warns) else ''}: a decoded field "
+               f"{'disappears from' if not own else 'is duplicated in'} the event stream (its bytes are then missing from / "
+               "doubled in the re-encoding, and every later field is misaligned)", module=mod, node=p.node or fn, func=fn.name,
+               construct="primitive event once")
 
 
 def check(run, project):
@@ -71,6 +188,7 @@ def check(run, project):
                        "defaults and delegation chain; shape of to_bytes(event)/unmarshal; who-defines-to_bytes over all "
                        "layout modules; range containment of every valid set (exhaustive over L)")
     b1(run, project, roles)
+    primitive_event_once(run, roles, "B3")
     b2_b3(run, project)
     b4(run, project)
     b5(run, L)
